@@ -153,21 +153,12 @@ def observe_bits(case):
             "compat": bool(B.is_compatible_bitmasks(a, b, f))}
 
 
-def int_arg_normalised():
-    """Which form of Bipartition.is_compatible_with(int) does the working tree have?  Decided by
-    replaying the recorded finding's case (DESIGN 5.2): True = an un-normalised int is normalised."""
-    from dendropy.datamodel.treemodel import Bipartition as B
-    b = B(leafset_bitmask=0b0110, tree_leafset_bitmask=0b1111)
-    return bool(b.is_compatible_with(0b1101))
-
-
 def observe_bip(case):
     from dendropy.datamodel.treemodel import Bipartition as B
     a, b, f, r = case["a"], case["b"], case["f"], case["rooted"]
     b1 = B(leafset_bitmask=a, tree_leafset_bitmask=f, is_rooted=r)
     b2 = B(leafset_bitmask=b, tree_leafset_bitmask=f, is_rooted=r)
-    return {"norm_int": int_arg_normalised(),
-            "b1": [b1.leafset_bitmask, b1.split_bitmask], "b2": [b2.leafset_bitmask, b2.split_bitmask],
+    return {"b1": [b1.leafset_bitmask, b1.split_bitmask], "b2": [b2.leafset_bitmask, b2.split_bitmask],
             "trivial": bool(b1.is_trivial()), "compat": bool(b1.is_compatible_with(b2)),
             "compat_int": bool(b1.is_compatible_with(b)),
             "nested": bool(b1.is_nested_within(b2)),
@@ -492,8 +483,8 @@ def to_coq(case, obs):
             cz(case["a"]), cz(case["b"]), cz(case["f"]), cz(obs["lsb"]), cz(obs["popcount"]), cz(obs["norm"]),
             cbool(obs["trivial"]), cbool(obs["trivial_leafset"]), cbool(obs["compat"]))
     if k == "bip":
-        return "(CBip %s %s %s %s %s (mkBip %s %s %s %s %s %s %s %s %s))" % (
-            cbool(obs["norm_int"]), cz(case["a"]), cz(case["b"]), cz(case["f"]), c_ob(case["rooted"]),
+        return "(CBip %s %s %s %s (mkBip %s %s %s %s %s %s %s %s %s))" % (
+            cz(case["a"]), cz(case["b"]), cz(case["f"]), c_ob(case["rooted"]),
             cpair(cz(obs["b1"][0]), cz(obs["b1"][1])), cpair(cz(obs["b2"][0]), cz(obs["b2"][1])),
             cbool(obs["trivial"]), cbool(obs["compat"]), cbool(obs["compat_int"]), cbool(obs["nested"]),
             cbool(obs["nested_masked"]), cbool(obs["leafset_nested"]), cbool(obs["leafset_nested_int"]))
@@ -599,7 +590,6 @@ def run(tier, seed, replay=None):
         "post-order stack traversal of encode_bipartitions is modelled by structural recursion (traversal order is C15's subject)",
         "every leaf taxon is a member of the tree's namespace (taxon_bitmask of a non-member raises KeyError)",
         "from_split_bitmasks: the leaf-to-root climb is modelled as the root-to-leaf descent to the deepest node covering the split (same node on masks that grow towards the root)",
-        "Bipartition.is_compatible_with(int): modelled in the recorded (int used as given) and the repaired (int normalised when self is not rooted) form; which one the working tree has is decided by replaying the finding's case",
         "a tree without any taxon (tree mask 0) keeps mutable bipartitions and split_bitmask_edge_map raises AssertionError: outside the property's domain, not flagged",
         "edge lengths are dyadic rationals for which binary64 addition is exact",
     ]
@@ -636,8 +626,6 @@ def run(tier, seed, replay=None):
             ctx.count("enc:twice" if c["twice"] else "enc:once")
         if c["kind"] == "from":
             ctx.count("from:" + c["mode"])
-    ctx.notes.append("Bipartition.is_compatible_with(int) form of the working tree: %s"
-                     % ("repaired (int normalised)" if int_arg_normalised() else "recorded finding (int used as given)"))
     core.corr_stage(ctx, cases, observe, to_coq, HEADER, "case_ok", oracle=oracle, show_fn="case_show",
                     nontrivial=nontrivial, search=search, shard=250, sample_fn=sample_fn)
     return ctx.finish(
